@@ -55,7 +55,7 @@ func (c19) Decode(b []byte) (Case, error) {
 	return &c, err
 }
 
-var scribbleMuts = []string{"label-new", "label-over", "label-del", "label-do", "annot-new", "annot-over", "annot-del", "fin-add", "fin-rem-first", "fin-rem-last", "fin-set", "phase", "version", "owner", "val", "token-append", "token-inplace"}
+var scribbleMuts = []string{"label-new", "label-over", "label-del", "label-do", "label-do-absent-first", "label-do-get-first", "annot-do-absent-first", "annot-new", "annot-over", "annot-del", "fin-add", "fin-rem-first", "fin-rem-last", "fin-set", "phase", "version", "owner", "val", "token-append", "token-inplace"}
 
 func genIsoOps(r *simrt.RNG, client, n, nids int, uniq *int) []IsoOp {
 	var ops []IsoOp
@@ -213,6 +213,24 @@ func scribble(md *resource.Metadata, sp *Spec, mut, val string) {
 		md.Labels().Do(func(tmp kvutils.TempKV) {
 			tmp.Set("k", "do-"+val)
 			tmp.Delete("z")
+		})
+	case "label-do-absent-first":
+		md.Labels().Do(func(tmp kvutils.TempKV) {
+			tmp.Delete("no-such-key-" + val) // an ineffective change first, then a real one
+			tmp.Set("k", "do2-"+val)
+		})
+	case "label-do-get-first":
+		md.Labels().Do(func(tmp kvutils.TempKV) {
+			if v, ok := tmp.Get("k"); ok {
+				tmp.Set("k", v) // same value: ineffective
+			}
+			tmp.Delete("k")
+			tmp.Set("fresh-"+val, val)
+		})
+	case "annot-do-absent-first":
+		md.Annotations().Do(func(tmp kvutils.TempKV) {
+			tmp.Delete("no-such-key-" + val)
+			tmp.Set("note", "do2-"+val)
 		})
 	case "annot-new":
 		md.Annotations().Set("s-"+val, val)
